@@ -8,12 +8,18 @@
 (*   note(dur, chord, grace, rest, pitch, voice, staff, tie stop/start, id)*)
 (*   backup(d) / forward(d)                                                *)
 (*   time / key / clef            attributes, in force from the cursor on  *)
+(*   range(kind, number, type)    start / stop of a slur or tuplet (on a   *)
+(*                                note) or of a wedge, dashes or pedal (a  *)
+(*                                direction at the cursor)                 *)
 (* A cursor pos (in quarters, exact) starts each measure where the longest *)
 (* voice of the previous one ended; a note sounds at the cursor and moves  *)
 (* it by its duration, a chord note sounds where the previous note began   *)
 (* and does not move it, a grace note has no duration, backup/forward move *)
 (* the cursor.  A tie stop is paired with the open tie start of the same   *)
-(* pitch.  The measure ends at the furthest point reached.                 *)
+(* pitch.  The measure ends at the furthest point reached.  A range is     *)
+(* identified by kind and number while it is open: a start on a number that *)
+(* is open, or a second stop, breaks the format (a stop may precede its     *)
+(* start in document order when the range begins in a later voice).        *)
 (* One action per event kind; Trace specifications drive it event by event.*)
 (***************************************************************************)
 EXTENDS Rat, Sequences, FiniteSets, TLC
@@ -27,15 +33,17 @@ VARIABLES pos,        \* cursor, in quarters
           notes,      \* placed notes
           measures,   \* [number, name, start, end]
           attrs,      \* signatures and clefs with the position they take effect
+          ropen,      \* open ranges <<kind, number, position, note id>>
+          rclosed,    \* closed ranges [kind, from, to, fromid, toid]
           bad         \* names of violated format rules
-svars == <<pos, divs, mstart, maxpos, lastOn, open, notes, measures, attrs, bad>>
+svars == <<pos, divs, mstart, maxpos, lastOn, open, notes, measures, attrs, ropen, rclosed, bad>>
 
 Zero == <<0, 1>>
 RMax(a, b) == IF RLess(a, b) THEN b ELSE a
 Q(d) == R(d, divs)                       \* a duration in divisions as quarters
 PitchKey(e) == <<e.step, e.alter, e.octave>>
 SInit == /\ pos = Zero /\ divs = 1 /\ mstart = Zero /\ maxpos = Zero /\ lastOn = Zero
-         /\ open = <<>> /\ notes = <<>> /\ measures = <<>> /\ attrs = <<>> /\ bad = {}
+         /\ open = <<>> /\ notes = <<>> /\ measures = <<>> /\ attrs = <<>> /\ ropen = <<>> /\ rclosed = <<>> /\ bad = {}
 
 OpenIdx(k) == IF \E i \in 1..Len(open) : open[i][1] = k THEN (CHOOSE i \in 1..Len(open) : open[i][1] = k) ELSE 0
 Without(s, i) == [j \in 1..(Len(s) - 1) |-> IF j < i THEN s[j] ELSE s[j + 1]]
@@ -43,17 +51,35 @@ Without(s, i) == [j \in 1..(Len(s) - 1) |-> IF j < i THEN s[j] ELSE s[j + 1]]
 StartMeasure(e) ==
    /\ mstart' = pos /\ maxpos' = pos /\ lastOn' = pos
    /\ measures' = Append(measures, [number |-> e.number, start |-> pos, end |-> pos])
-   /\ UNCHANGED <<pos, divs, open, notes, attrs, bad>>
+   /\ UNCHANGED <<pos, divs, open, notes, attrs, ropen, rclosed, bad>>
 EndMeasure ==
    /\ pos' = maxpos
    /\ measures' = [measures EXCEPT ![Len(measures)].end = maxpos]
-   /\ UNCHANGED <<divs, mstart, maxpos, lastOn, open, notes, attrs, bad>>
+   /\ UNCHANGED <<divs, mstart, maxpos, lastOn, open, notes, attrs, ropen, rclosed, bad>>
 Divisions(e) ==
    /\ divs' = e.d
    /\ bad' = bad \cup (IF e.d < 1 THEN {"divisions_not_positive"} ELSE {})
-   /\ UNCHANGED <<pos, mstart, maxpos, lastOn, open, notes, measures, attrs>>
+   /\ UNCHANGED <<pos, mstart, maxpos, lastOn, open, notes, measures, attrs, ropen, rclosed>>
+(* the range marks rs (stops first, as a reader processes them) applied at position at on behalf of note id; an entry of
+   ropen is <<kind, number, position, note id, what>> with what = "start" or - when the stop comes first in document order,
+   as it does for a slur that begins in a voice written later - "stop" *)
+ApplyRanges(rs, at, id) ==
+   LET F[k \in 0..Len(rs)] ==
+          IF k = 0 THEN <<ropen, rclosed, {}>>
+          ELSE LET acc == F[k - 1]
+                   r == rs[k]
+                   oi == IF \E i \in 1..Len(acc[1]) : acc[1][i][1] = r.kind /\ acc[1][i][2] = r.number
+                         THEN (CHOOSE i \in 1..Len(acc[1]) : acc[1][i][1] = r.kind /\ acc[1][i][2] = r.number) ELSE 0
+               IN IF oi = 0 THEN <<Append(acc[1], <<r.kind, r.number, at, id, r.type>>), acc[2], acc[3]>>
+                  ELSE IF acc[1][oi][5] = r.type
+                       THEN <<acc[1], acc[2], acc[3] \cup {IF r.type = "start" THEN "range_started_on_a_number_that_is_open" ELSE "range_stopped_twice"}>>
+                  ELSE IF r.type = "stop"
+                       THEN <<Without(acc[1], oi), Append(acc[2], [kind |-> r.kind, from |-> acc[1][oi][3], to |-> at, fromid |-> acc[1][oi][4], toid |-> id]), acc[3]>>
+                       ELSE <<Without(acc[1], oi), Append(acc[2], [kind |-> r.kind, from |-> at, to |-> acc[1][oi][3], fromid |-> id, toid |-> acc[1][oi][4]]), acc[3]>>
+   IN F[Len(rs)]
 Note(e) ==
    LET on == IF e.chord = 1 THEN lastOn ELSE pos
+       rg == ApplyRanges(e.ranges, on, e.id)
        d == IF e.grace = 1 THEN Zero ELSE Q(e.dur)
        k == PitchKey(e)
        oi == OpenIdx(k)
@@ -68,7 +94,8 @@ Note(e) ==
       /\ pos' = IF e.chord = 1 \/ e.grace = 1 THEN pos ELSE RAdd(pos, d)
       /\ lastOn' = IF e.chord = 1 THEN lastOn ELSE pos
       /\ maxpos' = RMax(maxpos, RAdd(on, d))
-      /\ bad' = bad \cup (IF stopOk THEN {} ELSE {"tie_stop_without_start"})
+      /\ ropen' = rg[1] /\ rclosed' = rg[2]
+      /\ bad' = bad \cup rg[3] \cup (IF stopOk THEN {} ELSE {"tie_stop_without_start"})
                     \cup (IF startClash THEN {"tie_start_while_same_pitch_open"} ELSE {})
                     \cup (IF e.chord = 1 /\ Len(notes) = 0 THEN {"chord_without_previous_note"} ELSE {})
                     \cup (IF prev # 0 /\ ~REq(RAdd(notes[prev].on, notes[prev].dur), on) THEN {"tie_across_a_gap"} ELSE {})
@@ -76,14 +103,18 @@ Note(e) ==
 Backup(e) ==
    /\ pos' = RSub(pos, Q(e.d))
    /\ bad' = bad \cup (IF RLess(RSub(pos, Q(e.d)), mstart) THEN {"backup_before_measure_start"} ELSE {})
-   /\ UNCHANGED <<divs, mstart, maxpos, lastOn, open, notes, measures, attrs>>
+   /\ UNCHANGED <<divs, mstart, maxpos, lastOn, open, notes, measures, attrs, ropen, rclosed>>
 Forward(e) ==
    /\ pos' = RAdd(pos, Q(e.d))
    /\ maxpos' = RMax(maxpos, RAdd(pos, Q(e.d)))
-   /\ UNCHANGED <<divs, mstart, lastOn, open, notes, measures, attrs, bad>>
+   /\ UNCHANGED <<divs, mstart, lastOn, open, notes, measures, attrs, ropen, rclosed, bad>>
+Direction(e) ==
+   LET rg == ApplyRanges(e.ranges, pos, "") IN
+   /\ ropen' = rg[1] /\ rclosed' = rg[2] /\ bad' = bad \cup rg[3]
+   /\ UNCHANGED <<pos, divs, mstart, maxpos, lastOn, open, notes, measures, attrs>>
 Attr(e) ==
    /\ attrs' = Append(attrs, [kind |-> e.kind, at |-> pos, a |-> e.a, b |-> e.b, c |-> e.c])
-   /\ UNCHANGED <<pos, divs, mstart, maxpos, lastOn, open, notes, measures, bad>>
+   /\ UNCHANGED <<pos, divs, mstart, maxpos, lastOn, open, notes, measures, ropen, rclosed, bad>>
 
 (* ---- what the document denotes ---- *)
 NextOf(i) == IF \E j \in 1..Len(notes) : notes[j].prev = i THEN (CHOOSE j \in 1..Len(notes) : notes[j].prev = i) ELSE 0
